@@ -340,7 +340,8 @@ pub fn prec_stream() -> Vec<TextCase> {
         }
         // identifiers that a more permissive literal syntax would claim: digit groups, non-finite floats, exponents, signs
         for w in ["i1_0", "d2_5", "f1_2", "i1_000", "i1__0", "i18n", "f1_score", "d3_layout", "f64_bits", "i2c", "d20roll", "finf", "fNaN", "fnan", "finfinity", "fInf", "dinf", "iinf", "dNaN",
-                  "f1e", "f1e+", "d1e3", "d1e-3", "i1e3", "f1E5x", "i0x10", "i0b1", "f0x1p3", "d1f", "i1L", "i1u8", "f1f64", "i1i128"] {
+                  "f1e", "f1e+", "d1e3", "d1e-3", "i1e3", "f1E5x", "i0x10", "i0b1", "f0x1p3", "d1f", "i1L", "i1u8", "f1f64", "i1i128",
+                  "t1h", "t5m30s", "t1w2d3h4m5s", "t9000000000000000s9000000000000000s", "t15000000000w15000000000w", "t99999999999999999999d", "p1y2m", "n99999999999999999999999999999999999999999", "x1e99999", "h18446744073709551616", "e999999999"] {
             for form in ["{w}", "{w}(a)", "a.{w}", ":{w}", "{{{w}: a}}", "{w} <= a", "a*{w}-b", "{w}.0"] {
                 t.push(form.replace("{w}", w));
             }
@@ -477,6 +478,15 @@ pub fn literal_stream(rng: &mut Rng, thorough: bool) -> Vec<TextCase> {
     }
     for s in ["int", "inty", "i5", "i5x", "f1e", "f1e5", "f1e5x", "d5", "d5x", "in", "inx", "i", "f", "d", "i_", "f_1", "d1_", "i1_", "if1", "f1f", "d1d1", "i1i1", "i1 i1", "f1.5.5", "f1.5.a", "i5.a", "i5.0", "d5.a", "d5.0.a", "f5.0.0", "a_b", "_a", "a__", "A1", "é", "aé"] {
         t.push(s.to_string());
+    }
+    // words that are identifiers today and that a more permissive literal syntax would claim (digit groups, exponents on
+    // decimals and integers, non-finite floats, duration / period / radix-like words with extreme numeric parts)
+    for w in ["i1_0", "d2_5", "f1_2", "i1_000", "i1__0", "i1_", "f1_score", "d1e3", "d1e-3", "i1e3", "finf", "fNaN", "f-inf", "dinf", "i0x10", "i1L", "f1f64",
+              "t1h", "t5m30s", "t1w2d3h4m5s", "t9000000000000000s9000000000000000s", "t15000000000w15000000000w", "t99999999999999999999d", "p1y2m", "p99999999999999999999y",
+              "n99999999999999999999999999999999999999999", "x1e99999", "h18446744073709551616", "b101", "o777", "x1f", "u128", "e10", "e999999999"] {
+        for form in ["{w}", "{w} + i1", "[{w}]", "a.{w}", "{w}(i1)", "{{k: {w}}}"] {
+            t.push(form.replace("{w}", w));
+        }
     }
     t.into_iter().map(|text| TextCase { text, tag: "literals" }).collect()
 }
